@@ -10,3 +10,5 @@ mod test;
 pub use self::decoder::{Decoder, DecoderError};
 pub use self::encoder::Encoder;
 pub use self::header::{BytesStr, Header};
+#[cfg(feature = "h2_verif")]
+pub use self::decoder::NeedMore;
